@@ -210,6 +210,31 @@ class SizeMonitor:
 SIZE = SizeMonitor()
 SIZE.install()
 
+# Packet-id observation: the public header factory of each registry is wrapped so
+# that the harness learns which packet id the send() call it is about to make was
+# given (the retry of a queued message re-uses its header, hence its id).
+HDR_SINK = [None]
+
+
+def _install_hdr_observer():
+    for gen in (4, 5):
+        hf = registry(gen).header_factory
+        orig = hf.create_from_message
+
+        def create_from_message(message, message_length, _orig=orig):
+            h = _orig(message, message_length)
+            sink = HDR_SINK[0]
+            if sink is not None:
+                sink["pid"] = h.packet_id
+                sink["to"] = h.to_address
+                HDR_SINK[0] = None
+            return h
+
+        hf.create_from_message = create_from_message
+
+
+_install_hdr_observer()
+
 
 # ------------------------------------------------------------ getter snapshot
 
